@@ -2188,15 +2188,37 @@ func (s *swamp) SaveFunction(t treasure.Treasure, guardID guard.ID) treasure.Tre
 			if t.GetContentType() != treasure.ContentTypeVoid {
 				s.addTreasureToBeacons(t)
 			}
-		} else if t.IsExpirationTimeChanged() {
-			// ExpirationTime moved (e.g. via PatchTreasures meta). Refresh
-			// only the expiration-time beacon: drop the stale entry and
+		} else {
+			// The treasure object is shared with the ordered beacons, so a
+			// moved sort attribute leaves their slices unsorted. Refresh each
+			// index whose attribute was touched: drop the stale entry and
 			// re-add it under the new sort key — unless the new value is 0
-			// ("never expires"), in which case leave it removed.
-			s.deleteTreasureIfBeaconInitialized(s.expirationTimeBeaconASC, t.GetKey())
-			s.deleteTreasureIfBeaconInitialized(s.expirationTimeBeaconDESC, t.GetKey())
-			if t.GetExpirationTime() != 0 {
-				s.addToExpirationTimeBeacon(t)
+			// (e.g. "never expires"), in which case leave it removed.
+			if t.IsExpirationTimeChanged() {
+				s.deleteTreasureIfBeaconInitialized(s.expirationTimeBeaconASC, t.GetKey())
+				s.deleteTreasureIfBeaconInitialized(s.expirationTimeBeaconDESC, t.GetKey())
+				if t.GetExpirationTime() != 0 {
+					s.addToExpirationTimeBeacon(t)
+				}
+			}
+			if t.IsCreatedAtChanged() {
+				s.deleteTreasureIfBeaconInitialized(s.creationTimeBeaconASC, t.GetKey())
+				s.deleteTreasureIfBeaconInitialized(s.creationTimeBeaconDESC, t.GetKey())
+				if t.GetCreatedAt() != 0 {
+					s.addToCreationTimeBeacon(t)
+				}
+			}
+			if t.IsModifiedAtChanged() {
+				s.deleteTreasureIfBeaconInitialized(s.updateTimeBeaconASC, t.GetKey())
+				s.deleteTreasureIfBeaconInitialized(s.updateTimeBeaconDESC, t.GetKey())
+				if t.GetModifiedAt() != 0 {
+					s.addToUpdateTimeBeacon(t)
+				}
+			}
+			if t.IsContentChanged() {
+				s.deleteTreasureIfBeaconInitialized(s.valueBeaconASC, t.GetKey())
+				s.deleteTreasureIfBeaconInitialized(s.valueBeaconDESC, t.GetKey())
+				s.addToValueBeacon(t)
 			}
 		}
 
